@@ -120,7 +120,7 @@ SimpleBytes(i, ty, k) ==
       [] ty = "IpAddress" -> IntPat(4, k)
       [] ty = "CString" -> CStringOf(StrFor(i, k))
       [] ty = "SizedCString" -> SizedCStringOf(StrFor(i, k))
-      [] ty = "String" -> StringOf(StrFor(i, k))
+      [] ty = "String" -> StringOf(Trunc(StrFor(i, k), 255))      \* one length byte
 
 IntWidth(ty) == CASE ty \in {"u8", "i8"} -> 1 [] ty \in {"u16", "i16"} -> 2
                   [] ty \in {"u32", "i32"} -> 4 [] ty \in {"u64", "i64"} -> 8 [] OTHER -> 0
